@@ -343,6 +343,84 @@ def check_copy(case, rec):
     return fails
 
 
+# ---- two hops: A lends to B, B hands the proxy on to C ------------------------------------------------------------------
+def check_twohop(case, rec):
+    import rpyc
+    from rpyc.core.channel import Channel
+    from vlib import simkernel as sk
+    spec = case["spec"]
+    v = vals.build(spec)
+    rec.case(case, not vals.plain(v) or vals.is_composite(spec), ["twohop:" + case["op"], "tag:" + spec[0]])
+    fails = []
+    k = sk.Kernel()
+    out = {}
+    with k.installed():
+        l1, l2 = sk.Link(k), sk.Link(k)
+        holder = {}
+
+        class C(rpyc.Service):
+            def exposed_consume(self, op, x):
+                if op == "info":
+                    return peer_desc(x)
+                if op == "echo":
+                    return x
+                if op == "mutate":
+                    if x.__class__ is list:
+                        x += ("far",)
+                        return len(x)
+                    return -1
+
+        class B(rpyc.Service):
+            def exposed_forward(self, op, x):
+                return holder["b2"].root.consume(op, x)
+        a1 = rpyc.VoidService()._connect(Channel(l1.a), {"sync_request_timeout": 60})
+        b1 = B()._connect(Channel(l1.b), {"sync_request_timeout": 60})
+        b2 = rpyc.VoidService()._connect(Channel(l2.a), {"sync_request_timeout": 60})
+        c2 = C()._connect(Channel(l2.b), {"sync_request_timeout": 60})
+        holder["b2"] = b2
+
+        def serve(conn):
+            try:
+                conn.serve_all()
+            except sk.KernelAbort:
+                raise
+            except Exception:
+                pass
+
+        def driver():
+            out["res"] = a1.root.forward(case["op"], v)
+        k.spawn(serve, b1, name="serve-B1", daemon=True)
+        k.spawn(serve, c2, name="serve-C2", daemon=True)
+        t = k.spawn(driver, name="driver")
+        k.run()
+        if t.exc is not None:
+            fails.append(Failure("twohop-raised", type(t.exc).__name__, case, (t.exc_tb or "")[-300:]))
+        elif k.deadlock:
+            fails.append(Failure("deadlock", "two hops", case, k.deadlock))
+        else:
+            r = out["res"]
+            if case["op"] == "info":
+                want = expected_desc(v)
+                if r != want:
+                    fails.append(Failure("twohop-" + _clause(want), _key(r, want), case, r, want))
+            elif case["op"] == "echo":
+                if vals.plain(v):
+                    if not vals.same(r, v):
+                        fails.append(Failure("twohop-echo-value", type(r).__name__, case, vals.describe(r), vals.describe(v)))
+                elif type(v) is tuple:
+                    if type(r) is not tuple or len(r) != len(v) or not _echo_tuple_ok(r, v):
+                        fails.append(Failure("twohop-echo-tuple", "structure or identity", case))
+                elif r is not v:
+                    fails.append(Failure("twohop-echo-identity", "reference returned through two hops is not the original object", case,
+                                         type(r).__name__))
+            elif case["op"] == "mutate" and type(v) is list:
+                if r != len(v) or v[-1:] != ["far"]:
+                    fails.append(Failure("twohop-mutation", "change made two hops away did not reach the owner", case, [r, v[-2:]]))
+        for cn in (a1, b1, b2, c2):
+            cn._closed = True
+    return fails
+
+
 COPYABLE = [["list", [["int", "1"], ["str", "a"]]], ["list", []], ["dict", [[["str", "k"], ["int", "1"]]]], ["set", []],
             ["bytearray", "6162"], ["tuple", [["int", "1"], ["list", [["int", "2"]]]]], ["sub", "namedtuple", ["none"]],
             ["exc"], ["range"]]
@@ -356,6 +434,7 @@ def plan(tier, scale):
     out = [{"part": "values", "n": int(nv * scale)} for _ in range(sh)]
     out += [{"part": "histories", "n": int(nh * scale)} for _ in range(sh)]
     out += [{"part": "copies", "n": int(nc * scale)} for _ in range(2)]
+    out += [{"part": "twohop", "n": int((60 if tier == "quick" else 1500) * scale)} for _ in range(3)]
     return out
 
 
@@ -375,8 +454,15 @@ def copy_cases():
                                   "spec": st.sampled_from(COPYABLE)})
 
 
+def twohop_cases():
+    spec = st.one_of(vals.immutables(big=False, max_leaves=4), vals.non_dumpables(max_leaves=4), st.sampled_from([["list", []], ["list", [["int", "1"]]]]))
+    return st.fixed_dictionaries({"part": st.just("twohop"), "spec": spec, "op": st.sampled_from(["info", "echo", "echo", "mutate"])})
+
+
 def run_shard(desc, seed, rec, tier):
-    if desc["part"] == "values":
+    if desc["part"] == "twohop":
+        drive(rec, twohop_cases(), lambda c: check_twohop(c, rec), desc["n"], seed)
+    elif desc["part"] == "values":
         drive(rec, value_cases(), lambda c: check_value(c, rec), desc["n"], seed)
     elif desc["part"] == "histories":
         drive(rec, history_cases(), lambda c: check_history(c, rec), desc["n"], seed)
@@ -385,4 +471,4 @@ def run_shard(desc, seed, rec, tier):
 
 
 def replay(case, rec):
-    return {"values": check_value, "histories": check_history, "copies": check_copy}[case["part"]](case, rec)
+    return {"values": check_value, "histories": check_history, "copies": check_copy, "twohop": check_twohop}[case["part"]](case, rec)
